@@ -322,7 +322,7 @@ class C07(Profile):
     level = "fault_enumeration"
     claims = {k: "C07" for k in ("rows_mismatch", "mutated", "transfer_payload_on_input", "process_changed_signature",
                                  "process_incomplete", "hook_bad_arg", "hook_on_trivial", "hook_recall", "bad_payload",
-                                 "exec_exception")}
+                                 "exec_exception", "payload_not_cached")}
     fault_sites = PROC_SITES
     enumerate_faults = True
     track_payloads = True
